@@ -164,7 +164,12 @@ impl MultiProgress {
         };
 
         state.draw_target = ProgressDrawTarget::hidden();
-        self.state.write().unwrap().remove_idx(idx);
+        let mut multi = self.state.write().unwrap();
+        multi.remove_idx(idx);
+        // The lines of the removed bar are still on the screen and counted as part of the last
+        // frame. Repaint without them now: otherwise, if the next bar is finished and dropped
+        // before anything is drawn, the lines kept for it are the removed bar's stale ones.
+        let _ = multi.draw(true, None, Instant::now());
     }
 
     fn internalize(&self, location: InsertLocation, pb: ProgressBar) -> ProgressBar {
